@@ -107,7 +107,7 @@ CLAIMED = {
 # Additions made after the sub-agent seeding rounds (DESIGN.md 8.5): (technique +=, level text +=, level note +=)
 ADDENDA = {
     "C03": ("; bound derivation for one-byte displacements of the ModRM emitters",
-            " Also decides that a memory operand's displacement is emitted as a single (sign-extended) byte only where it is known to lie in [-128, 127].", ""),
+            " Also decides that a memory operand's displacement is emitted as a single (sign-extended) byte only where it is known to lie in [-128, 127], and that the displacement-free (mod=0) form is never emitted with an rbp/r13 base.", ""),
     "C04": ("; type-level widening rule over the generator's parameter-assembly templates instantiated into a scratch translation unit",
             " Also decides that the generated C and the emulator reassemble a 64-bit parameter from its two executor slots with a zero-extended low half.", ""),
     "C07": ("; type-level widening rule over the parameter-assembly templates of orcprogram-c.c / orcc.c instantiated into a scratch translation unit",
@@ -119,7 +119,7 @@ ADDENDA = {
             " Also decides that no branch emitted by orc_x86_compile jumps across save_registers / set_mxcsr / restore_mxcsr / restore_registers, and that push/pop carry bit 3 of the register in a REX prefix (so r12..r15 are the registers actually saved).",
             " Only the SysV AMD64 arm of the ABI table is decided (the i386 arm is not in this build's AST)."),
     "C12": ("; REX coverage and REX-role agreement between the opcode and ModRM byte emitters (with register-provenance feasibility filter); bound derivation for one-byte displacements",
-            " Also decides that register numbers embedded in the opcode byte get their bit 3 from a REX prefix, that for every instruction type the operand placed in ModRM.rm / ModRM.reg is the one handed to REX.B / REX.R wherever a register >= 8 can reach it, and that a displacement is emitted as one byte only within [-128, 127].", ""),
+            " Also decides that register numbers embedded in the opcode byte get their bit 3 from a REX prefix, that for every instruction type the operand placed in ModRM.rm / ModRM.reg is the one handed to REX.B / REX.R wherever a register >= 8 can reach it, that a displacement is emitted as one byte only within [-128, 127], and that the displacement-free (mod=0) form is emitted only for bases other than rbp/r13.", ""),
     "C13": ("; type-level widening rule on the integer decoders",
             " Also decides that the integer decoders widen every byte before shifting it into place (no sign extension, no lost bits).", ""),
     "C14": ("; free-then-overwrite path rule over all parser handlers",
